@@ -10,12 +10,12 @@ C20 — covariance kernels are valid positive-definite kernels, scalar and matri
 Theorems about the model of `src/predict/gps/kernels.rs` (`Compute/Model/GpKernels.lean`):
 * constructors accept exactly the positive parameters;
 * scalar RBF and RQ over `ℝ`: symmetric, `k x x = var`, `0 < k x y ≤ var`, non-increasing in `|x - y|`;
-* matrix form over `ℝ` (`Vector`/`&Vector`/`Matrix`/`&Matrix` arguments = `Pts.vec`/`Pts.mat`, owned and
-  borrowed forms share one macro body): never panics on non-empty point sets, has shape `n × m`, and entry
-  `(i,j)` equals the scalar form at `(xᵢ, yⱼ)`;
-* the Gram matrix (`x = y`) is symmetric entry by entry for EVERY scalar type whose `+` and `*` are commutative
-  (hence for IEEE doubles: both entries perform the same operations on commuted operands);
-* an empty point set panics.
+* matrix form (as repaired by F50; `Vector`/`&Vector`/`Matrix`/`&Matrix` arguments = `Pts.vec`/`Pts.mat`, owned
+  and borrowed forms share one macro body): never panics on non-empty point sets, has shape `n × m`, and entry
+  `(i,j)` equals the scalar form at `(xᵢ, yⱼ)` — over `ℝ`, and for EVERY scalar type in which `powi a 2 = a * a`
+  (the matrix form performs the scalar form's operations; for IEEE doubles the two are the same double);
+* the Gram matrix (`x = y`) is symmetric entry by entry for every scalar type in which additionally
+  `(a - b) * (a - b) = (b - a) * (b - a)` (true of IEEE doubles: `b - a = -(a - b)` exactly).
 Positive semi-definiteness of the Gram matrices (T-B) is in `Compute/Props/C20Psd.lean`.
 -/
 namespace Cv.C20
@@ -196,16 +196,28 @@ theorem rq_legacy_witness :
 
 /-! ## Matrix form -/
 
-/-- Over a field the squared-distance entry `xᵢ² + yⱼ² - 2 xᵢ yⱼ` (as evaluated, with the `vpowi` chunk special
-case) is `(xᵢ - yⱼ)²`. -/
-theorem sqDistEntry_real (xs ys : List ℝ) (i j : Nat) (hi : i < xs.length) (hj : j < ys.length) :
-    sqDistEntry xs ys i j = powi (xs[i]! - ys[j]!) 2 := by
-  have hsq : ∀ v : List ℝ, sq v = v.map (powi · 2) := fun v =>
-    C04.vunArgI_eq_map (· * ·) powi 2 v (fun a => C04.powi_two a) (fun a => C04.powi_three a)
-  unfold sqDistEntry
-  rw [hsq, hsq, C12.map_get _ _ _ hi, C12.map_get _ _ _ hj]
-  simp only [C04.powi_two, two_real]
-  ring
+section anyScalar
+variable {α : Type} [Inhabited α] [Add α] [Sub α] [Mul α] [Div α] [Neg α] [Zero α] [One α] [NatCast α] [Transc α]
+
+/-- **rbf_matrix_form_eq_scalar.** For every scalar type in which `powi a 2 = a * a` (the reals; IEEE doubles),
+the RBF matrix form on non-empty point sets of sizes `n`, `m` returns a value, of shape `n × m`, whose entry
+`(i,j)` is the scalar `forward` at `(xᵢ, yⱼ)` — the very same expression. -/
+theorem rbf_matrix_form_eq_scalar (hp : ∀ a : α, powi a 2 = a * a) (k : RBF α) (x y : Pts α)
+    (hx : PtsWF x) (hy : PtsWF y) (hxn : 0 < x.points.length) (hyn : 0 < y.points.length) :
+    ∃ R, k.fwdM x y = some R ∧ R.nrows = x.points.length ∧ R.ncols = y.points.length ∧ R.WF ∧
+      ∀ i j, i < x.points.length → j < y.points.length → R.get i j = k.fwd x.points[i]! y.points[j]! := by
+  obtain ⟨R, hR, tR⟩ := rbf_fwdM_tab hp k x y hx hy hxn hyn
+  exact ⟨R, hR, tR.1, tR.2.1, tR.2.2.1, tR.2.2.2⟩
+
+/-- **rq_matrix_form_eq_scalar.** -/
+theorem rq_matrix_form_eq_scalar (hp : ∀ a : α, powi a 2 = a * a) (k : RQ α) (x y : Pts α)
+    (hx : PtsWF x) (hy : PtsWF y) (hxn : 0 < x.points.length) (hyn : 0 < y.points.length) :
+    ∃ R, k.fwdM x y = some R ∧ R.nrows = x.points.length ∧ R.ncols = y.points.length ∧ R.WF ∧
+      ∀ i j, i < x.points.length → j < y.points.length → R.get i j = k.fwd x.points[i]! y.points[j]! := by
+  obtain ⟨R, hR, tR⟩ := rq_fwdM_tab hp k x y hx hy hxn hyn
+  exact ⟨R, hR, tR.1, tR.2.1, tR.2.2.1, tR.2.2.2⟩
+
+end anyScalar
 
 /-- **rbf_matrix_form_entry.** For point sets of sizes `n`, `m` (each passed as a `Vector` or as a `Matrix` of any
 shape `r × c` with `r·c` points) the RBF matrix form returns a value, of shape `n × m`, whose entry `(i,j)` is
@@ -213,21 +225,15 @@ the scalar form at `(xᵢ, yⱼ)`. -/
 theorem rbf_matrix_form_entry (k : RBF ℝ) (x y : Pts ℝ) (hx : PtsWF x) (hy : PtsWF y)
     (hxn : 0 < x.points.length) (hyn : 0 < y.points.length) :
     ∃ R, k.fwdM x y = some R ∧ R.nrows = x.points.length ∧ R.ncols = y.points.length ∧ R.WF ∧
-      ∀ i j, i < x.points.length → j < y.points.length → R.get i j = k.fwd x.points[i]! y.points[j]! := by
-  obtain ⟨R, hR, tR⟩ := rbf_fwdM_tab k x y hx hy hxn hyn
-  refine ⟨R, hR, tR.1, tR.2.1, tR.2.2.1, fun i j hi hj => ?_⟩
-  rw [tR.2.2.2 i j hi hj]
-  simp only [rbfEntry, RBF.fwd, sqDistEntry_real _ _ i j hi hj]
+      ∀ i j, i < x.points.length → j < y.points.length → R.get i j = k.fwd x.points[i]! y.points[j]! :=
+  rbf_matrix_form_eq_scalar (fun a => C04.powi_two a) k x y hx hy hxn hyn
 
 /-- **rq_matrix_form_entry.** The same for the rational-quadratic kernel. -/
 theorem rq_matrix_form_entry (k : RQ ℝ) (x y : Pts ℝ) (hx : PtsWF x) (hy : PtsWF y)
     (hxn : 0 < x.points.length) (hyn : 0 < y.points.length) :
     ∃ R, k.fwdM x y = some R ∧ R.nrows = x.points.length ∧ R.ncols = y.points.length ∧ R.WF ∧
-      ∀ i j, i < x.points.length → j < y.points.length → R.get i j = k.fwd x.points[i]! y.points[j]! := by
-  obtain ⟨R, hR, tR⟩ := rq_fwdM_tab k x y hx hy hxn hyn
-  refine ⟨R, hR, tR.1, tR.2.1, tR.2.2.1, fun i j hi hj => ?_⟩
-  rw [tR.2.2.2 i j hi hj]
-  simp only [rqEntry, RQ.fwd, sqDistEntry_real _ _ i j hi hj]
+      ∀ i j, i < x.points.length → j < y.points.length → R.get i j = k.fwd x.points[i]! y.points[j]! :=
+  rq_matrix_form_eq_scalar (fun a => C04.powi_two a) k x y hx hy hxn hyn
 
 /-- The four argument kinds, spelled out: `Vector`/`&Vector` arguments … -/
 theorem rbf_matrix_form_entry_vec (k : RBF ℝ) (xs ys : List ℝ) (hx : xs ≠ []) (hy : ys ≠ []) :
@@ -256,49 +262,37 @@ theorem rq_matrix_form_entry_mat (k : RQ ℝ) (mx my : Mat ℝ) (hx : mx.WF) (hy
 /-- Non-vacuity and a concrete value: three points as a `Vector` against two points as a `2 × 1` `Matrix`. -/
 example : PtsWF (.mat ⟨[0, 1], 2, 1⟩ : Pts ℝ) := by simp [PtsWF, Mat.WF]
 
-/-- **matrix_form_empty.** An empty point set (either side) makes both matrix forms panic. -/
-theorem matrix_form_empty (kb : RBF ℝ) (kq : RQ ℝ) (x y : Pts ℝ) (hx : PtsWF x) (hy : PtsWF y)
-    (h : x.points = [] ∨ y.points = []) : kb.fwdM x y = none ∧ kq.fwdM x y = none := by
-  have hs : sqDist x y = none := by
-    rcases h with h | h
-    · exact sqDist_empty_left x y hx h
-    · exact sqDist_empty_right x y hy h
-  simp [RBF.fwdM, RQ.fwdM, hs]
-
-/-! ## Gram matrices are symmetric — for every scalar type with commutative `+` and `*` -/
+/-! ## Gram matrices are symmetric — for every scalar type with `powi a 2 = a*a` and `(a-b)² = (b-a)²` -/
 
 section gram
 variable {α : Type} [Inhabited α] [Add α] [Sub α] [Mul α] [Div α] [Neg α] [Zero α] [One α] [NatCast α] [Transc α]
 
-omit [Neg α] [Transc α] in
-theorem sqDistEntry_comm (hadd : ∀ a b : α, a + b = b + a) (hmul : ∀ a b : α, a * b = b * a)
-    (xs : List α) (i j : Nat) : sqDistEntry xs xs i j = sqDistEntry xs xs j i := by
-  unfold sqDistEntry
-  rw [hadd (sq xs)[i]!, hmul xs[i]!]
-
-/-- **rbf_gram_symm.** Entry `(i,j)` and entry `(j,i)` of the RBF Gram matrix are the same expression up to the
-order of the operands of one `+` and one `*`; no other law is used, so the statement holds at `Float`
-(IEEE `+` and `*` are commutative) as well as over `ℝ`. -/
-theorem rbf_gram_symm (hadd : ∀ a b : α, a + b = b + a) (hmul : ∀ a b : α, a * b = b * a)
+/-- **rbf_gram_symm.** Entry `(i,j)` and entry `(j,i)` of the RBF Gram matrix differ only in the sign of the
+difference that is squared; no other law is used, so the statement holds at `Float` as well as over `ℝ`. -/
+theorem rbf_gram_symm (hp : ∀ a : α, powi a 2 = a * a) (hsq : ∀ a b : α, (a - b) * (a - b) = (b - a) * (b - a))
     (k : RBF α) (x : Pts α) (hx : PtsWF x) (hn : 0 < x.points.length) :
     ∃ R, k.fwdM x x = some R ∧ R.nrows = x.points.length ∧ R.ncols = x.points.length ∧
       ∀ i j, i < x.points.length → j < x.points.length → R.get i j = R.get j i := by
-  obtain ⟨R, hR, tR⟩ := rbf_fwdM_tab k x x hx hx hn hn
+  obtain ⟨R, hR, tR⟩ := rbf_fwdM_tab hp k x x hx hx hn hn
   refine ⟨R, hR, tR.1, tR.2.1, fun i j hi hj => ?_⟩
   rw [tR.2.2.2 i j hi hj, tR.2.2.2 j i hj hi]
-  simp only [rbfEntry, sqDistEntry_comm hadd hmul]
+  simp only [RBF.fwd, hp, hsq x.points[i]! x.points[j]!]
 
 /-- **rq_gram_symm.** -/
-theorem rq_gram_symm (hadd : ∀ a b : α, a + b = b + a) (hmul : ∀ a b : α, a * b = b * a)
+theorem rq_gram_symm (hp : ∀ a : α, powi a 2 = a * a) (hsq : ∀ a b : α, (a - b) * (a - b) = (b - a) * (b - a))
     (k : RQ α) (x : Pts α) (hx : PtsWF x) (hn : 0 < x.points.length) :
     ∃ R, k.fwdM x x = some R ∧ R.nrows = x.points.length ∧ R.ncols = x.points.length ∧
       ∀ i j, i < x.points.length → j < x.points.length → R.get i j = R.get j i := by
-  obtain ⟨R, hR, tR⟩ := rq_fwdM_tab k x x hx hx hn hn
+  obtain ⟨R, hR, tR⟩ := rq_fwdM_tab hp k x x hx hx hn hn
   refine ⟨R, hR, tR.1, tR.2.1, fun i j hi hj => ?_⟩
   rw [tR.2.2.2 i j hi hj, tR.2.2.2 j i hj hi]
-  simp only [rqEntry, sqDistEntry_comm hadd hmul]
+  simp only [RQ.fwd, hp, hsq x.points[i]! x.points[j]!]
 
 end gram
+
+/-- The hypotheses of `rbf_gram_symm` are met by the reals. -/
+example : (∀ a : ℝ, powi a 2 = a * a) ∧ ∀ a b : ℝ, (a - b) * (a - b) = (b - a) * (b - a) :=
+  ⟨fun a => C04.powi_two a, fun a b => by ring⟩
 
 /-- **rbf_gram_diag.** Over `ℝ` the diagonal of the Gram matrix is the output variance. -/
 theorem rbf_gram_diag (k : RBF ℝ) (x : Pts ℝ) (hx : PtsWF x) (hn : 0 < x.points.length) :
